@@ -496,6 +496,15 @@ def class_pairs():
     P.append(("an array literal where a primitive is expected", "super(...) argument", al % ("{1.0f}", ""), al % ("1.0f", "")))
     for pos, bad_s, good_s in [("parenthesised gate name", "(x)(q);", "x(q);"), ("call of a call", "h(q)(q);", "h(q); h(q);"), ("parenthesised function name", "echo((f)(1.0f));", "echo(f(1.0f));")]:
         P.append(("a call through something that is not a name", pos, al % ("1.0f", bad_s), al % ("1.0f", good_s)))
+    # a class extending a specialisation of a generic class: the type arguments decide what fits its inherited members
+    gbx = ("class Animal { public constructor() -> Animal = default; }\nclass Dog extends Animal { public constructor() -> Dog = default; }\nclass Cat extends Animal { public constructor() -> Cat = default; }\n"
+           "class Box<T> { public T v; public constructor(T v) -> Box<T> { this.v = v; return this; } public function get() -> T { return this.v; } public function set(T x) -> void { this.v = x; } }\n"
+           "class DogBox extends Box<Dog> { public constructor(Dog d) -> DogBox { super(%s); return this; } }\n"
+           "function main() -> void { DogBox b = new DogBox(new Dog()); %s }")
+    for pos, sup, bad_s, good_s in [("argument of an inherited method", "d", "b.set(new Cat());", "b.set(new Dog());"), ("result of an inherited method", "d", "Cat c = b.get();", "Dog c = b.get();"),
+                                    ("inherited field", "d", "b.v = new Cat();", "b.v = new Dog();"), ("upcast to another specialisation", "d", "Box<Cat> w = b;", "Box<Dog> w = b;")]:
+        P.append(("a value of the wrong type through a generic base class", pos, gbx % (sup, bad_s), gbx % (sup, good_s)))
+    P.append(("a value of the wrong type through a generic base class", "super(...) argument", gbx % ("new Cat()", ""), gbx % ("d", "")))
     # generic classes: a T-typed value is no primitive; a '= default' parameter has its field's whole type
     gt = ("class Box<T> { public T v; public constructor(T v) -> Box<T> { this.v = v; return this; } public function get() -> T { return this.v; } %s }\n"
           "function main() -> void { Box<string> b = new Box<string>(\"text\"); echo(b.get()); }")
